@@ -204,7 +204,9 @@ def tasks(tier, seed):
     if not quick:
         add("time:word tomorrow:time_as_period", {"word": "tomorrow", "time": True}, time_as_period=True)
         add("time:months ago at", _single("month", "ago", 2, time=True))
-    for z in (["Europe/Paris"] if quick else ["Europe/Paris", "America/New_York", "Australia/Lord_Howe"]):
+    from . import zones
+    for z in [z for z in (["Europe/Paris"] if quick else ["Europe/Paris", "America/New_York", "Australia/Lord_Howe"])
+              if zones.usable(z, 2020, 2022)]:
         add("implicit-now:%s:in hours" % z, _single("hour", "in", 2), implicit_tz=z)
     for tz in (["+0530", "local"] if quick else ["UTC", "local", "+0530", "-0800", "+1245", "-0330"]):
         add("implicit-now:%s:days ago" % tz, _single("day", "ago", 2), implicit_tz="UTC" if tz == "UTC" else tz)
